@@ -1,6 +1,517 @@
-/- C03 — model not written yet (stub so that the driver target exists). -/
-namespace Nitime.C03
+/-
+C03 — model of time-based indexing in `nitime.timeseries` (core Lean only), on exact integer
+picoseconds.
 
-def handle (_args : List String) : String := "bad-op"
+Follows the source branch by branch:
+* `UniformTime.index_at / slice_during / at / during / __getitem__` → `UAxis.indexAt`, `UAxis.edge`,
+  `UAxis.sliceDuring` (intended: clipped to the axis) and `UAxis.sliceDuringCurrent` (today's
+  code: refuses epochs whose start or stop is outside `[t0, t0+duration)`), `UAxis.indexAtCurrent`
+  (today's range check against the *reported* duration).
+* `TimeArray.index_at / _index_closest / _index_before / _index_after / slice_during / at / during`
+  → `whereIdx` (np.where), `argmaxFirst` / `argminFirst` (np.argmax / np.argmin: first extremum),
+  `indexClosest`, `indexBefore`, `indexAfter`, `sliceDuring` (intended: duplicates of the last
+  sample before the stop are kept) and `sliceDuringCurrent` (today's code).
+* `Epochs.__init__` → `Epochs.mk`.
+* `TimeSeries.at / during / __getitem__` → `Series.at`, `Series.during`, `Series.getInt`.
+* `Events.__getitem__` → `Events.getInt / getFloat / getEpoch`.
+Bare numbers are read through the C01 constructor model (`C01.ctorNums`).
+-/
+import Nitime.Model.Units
+import Nitime.Model.Proto
+import Nitime.Model.C01
+import Nitime.Generated.Units
+
+namespace Nitime.C03
+open Nitime
+
+inductive Err where
+  | valueError | indexError | notImplemented
+  deriving Repr, DecidableEq
+
+def Err.name : Err → String
+  | .valueError => "ValueError" | .indexError => "IndexError" | .notImplemented => "NotImplementedError"
+
+/-! ### numpy helpers (documented semantics) -/
+
+/-- `np.where(mask)[0]` for the mask `p ts[i]` -/
+def whereIdx (p : Int → Bool) (ts : List Int) : List Nat :=
+  (List.range ts.length).filter (fun i => p (ts.getD i 0))
+
+/-- `np.where(mask)[0]` for an element-wise mask of two equally long arrays -/
+def whereIdx2 (p : Int → Int → Bool) (ts tq : List Int) : List Nat :=
+  (List.range ts.length).filter (fun i => p (ts.getD i 0) (tq.getD i 0))
+
+/-- `np.argmax`: position of the FIRST maximum -/
+def argmaxFirst : List Int → Nat
+  | [] => 0
+  | x :: xs => let k := argmaxFirst xs; if xs.getD k x > x then k + 1 else 0
+
+/-- `np.argmin`: position of the FIRST minimum -/
+def argminFirst : List Int → Nat
+  | [] => 0
+  | x :: xs => let k := argminFirst xs; if xs.getD k x < x then k + 1 else 0
+
+/-- fancy indexing `row[pos]` -/
+def sel (row : List Int) (pos : List Nat) : List Int := pos.map (fun i => row.getD i 0)
+
+/-- positions of `slice(lo, hi)` -/
+def slicePos (lo hi : Nat) : List Nat := List.range' lo (hi - lo)
+
+/-- python integer key on an axis of length `n` -/
+def normKey (n : Nat) (k : Int) : Except Err Nat :=
+  if 0 ≤ k ∧ k < n then .ok k.toNat
+  else if k < 0 ∧ -(n : Int) ≤ k then .ok (k + n).toNat
+  else .error .indexError
+
+/-! ### uniform axis -/
+
+/-- samples are `t0 + i*dt`, `i < n`; `dur` is the duration the object reports -/
+structure UAxis where
+  t0 : Int
+  dt : Int
+  n : Nat
+  dur : Int
+  unit : TimeUnit
+  deriving Repr, DecidableEq
+
+namespace UAxis
+
+def sample (a : UAxis) (i : Nat) : Int := a.t0 + (i : Int) * a.dt
+/-- end of the covered range: every sample owns a bin of width `dt` -/
+def stop (a : UAxis) : Int := a.t0 + (a.n : Int) * a.dt
+def times (a : UAxis) : List Int := (List.range a.n).map a.sample
+
+/-- `(ta - t0) // sampling_interval` (numpy floor division) -/
+def bin (a : UAxis) (t : Int) : Int := Int.fdiv (t - a.t0) a.dt
+
+/-- `index_at` with the range check against `[t0, hiEnd)` -/
+def indexAtWith (a : UAxis) (hiEnd : Int) (ts : List Int) : Except Err (List Int) :=
+  if ts.isEmpty then .error .valueError      -- min() of an empty array
+  else if C01.listMin ts < a.t0 ∨ C01.listMax ts ≥ hiEnd then .error .valueError
+  else .ok (ts.map a.bin)
+
+/-- intended: instants inside the last bin are accepted -/
+def indexAt (a : UAxis) (ts : List Int) : Except Err (List Int) := a.indexAtWith a.stop ts
+/-- today's code: `t0 + self.duration` as reported by the object -/
+def indexAtCurrent (a : UAxis) (ts : List Int) : Except Err (List Int) := a.indexAtWith (a.t0 + a.dur) ts
+
+/-- the index of an epoch edge `s` inside the axis: `i = index_at(s); if s > self[i]: i += 1` -/
+def edgeIn (a : UAxis) (s : Int) : Nat :=
+  let i := a.bin s
+  if s > a.t0 + i * a.dt then (i + 1).toNat else i.toNat
+
+/-- intended: edges outside the axis are clipped -/
+def edge (a : UAxis) (s : Int) : Nat :=
+  if s < a.t0 then 0 else if s ≥ a.stop then a.n else a.edgeIn s
+
+def sliceDuring (a : UAxis) (start stop : Int) : Nat × Nat := (a.edge start, a.edge stop)
+
+/-- today's code: both edges go through `index_at`, which refuses instants outside -/
+def sliceDuringCurrent (a : UAxis) (start stop : Int) : Except Err (Nat × Nat) :=
+  match a.indexAtCurrent [start], a.indexAtCurrent [stop] with
+  | .ok _, .ok _ => .ok (a.edgeIn start, a.edgeIn stop)
+  | _, _ => .error .valueError
+
+end UAxis
+
+/-! ### arbitrary time arrays -/
+
+/-- `_index_closest` for a scalar `t` -/
+def indexClosest (ts : List Int) (t tol : Int) : List Nat :=
+  whereIdx (fun x => decide (((x - t).natAbs : Int) ≤ tol)) ts
+
+/-- `cond[self[cond].argmax()]`, or the empty array -/
+def pickMax (ts : List Int) (cond : List Nat) : Option Nat :=
+  if cond.isEmpty then none else some (cond.getD (argmaxFirst (sel ts cond)) 0)
+
+def pickMin (ts : List Int) (cond : List Nat) : Option Nat :=
+  if cond.isEmpty then none else some (cond.getD (argminFirst (sel ts cond)) 0)
+
+def indexBefore (ts : List Int) (t : Int) : Option Nat := pickMax ts (whereIdx (fun x => decide (x ≤ t)) ts)
+def indexAfter (ts : List Int) (t : Int) : Option Nat := pickMin ts (whereIdx (fun x => decide (t ≤ x)) ts)
+
+/-- the same three lookups for an array `tq` as long as `ts` (element-wise masks) -/
+def indexClosest2 (ts tq : List Int) (tol : Int) : List Nat :=
+  whereIdx2 (fun x t => decide (((x - t).natAbs : Int) ≤ tol)) ts tq
+def indexBefore2 (ts tq : List Int) : Option Nat := pickMax ts (whereIdx2 (fun x t => decide (x ≤ t)) ts tq)
+def indexAfter2 (ts tq : List Int) : Option Nat := pickMin ts (whereIdx2 (fun x t => decide (t ≤ x)) ts tq)
+
+/-- last position holding the value `v` (+1): `np.where(self == v)[0].max() + 1` -/
+def afterLastEq (ts : List Int) (v : Int) : Nat :=
+  match (whereIdx (fun x => decide (x = v)) ts).getLast? with
+  | some j => j + 1
+  | none => 0
+
+/-- `TimeArray.slice_during`, parametrised by how the stop edge treats `stop > self[i_stop]` -/
+def sliceDuringWith (bump : List Int → Nat → Nat) (ts : List Int) (start stop : Int) : Nat × Nat :=
+  match indexAfter ts start, indexBefore ts stop with
+  | some i, some j =>
+    let i' := if start > ts.getD i 0 then i + 1 else i
+    let j' := if stop > ts.getD j 0 then bump ts j else j
+    (i', j')
+  | _, _ => (0, 0)
+
+/-- today's code: `i_stop += 1` -/
+def sliceDuringCurrent := sliceDuringWith (fun _ j => j + 1)
+/-- intended: every sample equal to `self[i_stop]` is included -/
+def sliceDuring := sliceDuringWith (fun ts j => afterLastEq ts (ts.getD j 0))
+
+/-! ### epochs -/
+
+structure Epochs where
+  starts : List Int
+  stops : List Int
+  scalar : Bool
+  offset : Int
+  unit : TimeUnit
+  deriving Repr, DecidableEq
+
+/-- an argument of a constructor: absent, a time object, or bare numbers -/
+abbrev Arg := Option C01.Operand
+
+/-- `TimeArray(x, time_unit=u)` -/
+def toTime (u : Option TimeUnit) : C01.Operand → C01.TVal
+  | .time t => C01.ctorFrom u t
+  | .bare sc xs => C01.ctorNums u sc xs
+
+def bc (f : Int → Int → Int) (a b : C01.TVal) : Except Err (List Int × Bool) :=
+  match C01.broadcast f a.ps a.scalar b.ps b.scalar with
+  | .ok r => .ok r
+  | .error _ => .error .valueError
+
+def Epochs.mk' (u : Option TimeUnit) (t0 stop offset start duration : Arg) : Except Err Epochs := do
+  if t0.isNone ∧ start.isNone then throw .valueError
+  if stop.isNone ∧ duration.isNone then throw .valueError
+  if stop.isSome ∧ duration.isSome then throw .valueError
+  let tOff := toTime u (offset.getD (.bare true [.int 0]))
+  if !tOff.scalar then throw .valueError
+  -- t_start (payload, 0-d?, unit)
+  let (sPs, sSc, sUnit) ← match start, t0 with
+    | some s, _ => let t := toTime u s; pure (t.ps, t.scalar, t.unit)
+    | none, some z =>
+      let t := toTime u z
+      let (ps, sc) ← bc (· - ·) t tOff
+      pure (ps, sc, t.unit)
+    | none, none => throw .valueError
+  let (ePs, eSc) ← match stop, duration with
+    | some e, _ => let t := toTime u e; pure (t.ps, t.scalar)
+    | none, some d =>
+      bc (· + ·) { ps := sPs, unit := sUnit, scalar := sSc } (toTime u d)
+    | none, none => throw .valueError
+  if sSc != eSc ∨ sPs.length ≠ ePs.length then throw .valueError
+  pure { starts := sPs, stops := ePs, scalar := sSc, offset := tOff.ps.headD 0, unit := sUnit }
+
+/-! ### time series (data rows × time) and events -/
+
+structure Series where
+  axis : UAxis
+  data : List (List Int)
+  deriving Repr, DecidableEq
+
+structure SeriesOut where
+  unit : TimeUnit
+  t0 : Int
+  /-- one block per epoch; each block is rows × selected samples -/
+  blocks : List (List (List Int))
+  deriving Repr, DecidableEq
+
+/-- `self.data[..., self.time.index_at(t)]` -/
+def Series.at (s : Series) (tq : List Int) : Except Err (List (List Int)) :=
+  match s.axis.indexAt tq with
+  | .ok idx => .ok (s.data.map fun row => sel row (idx.map Int.toNat))
+  | .error e => .error e
+
+/-- data of one epoch: `self.data[..., self.time.slice_during(e)]` -/
+def Series.block (s : Series) (start stop : Int) : List (List Int) :=
+  let (lo, hi) := s.axis.sliceDuring start stop
+  s.data.map fun row => sel row (slicePos lo hi)
+
+def allEq (xs : List Int) : Bool := match xs with
+  | [] => true
+  | x :: rest => rest.all (· == x)
+
+/-- `TimeSeries.during` -/
+def Series.during (s : Series) (e : Epochs) : Except Err SeriesOut :=
+  if e.scalar then
+    .ok { unit := s.axis.unit, t0 := e.offset,
+          blocks := [s.block (e.starts.headD 0) (e.stops.headD 0)] }
+  else if e.starts.isEmpty then .error .indexError
+  else if !allEq (List.zipWith (fun a b => b - a) e.starts e.stops) then .error .valueError
+  else
+    let blocks := List.zipWith (fun a b => s.block a b) e.starts e.stops
+    -- np.array of blocks of different widths is refused
+    if allEq (blocks.map fun b => ((b.headD []).length : Int)) then
+      .ok { unit := s.axis.unit, t0 := e.offset, blocks := blocks }
+    else .error .valueError
+
+/-- `self.data[..., k]` -/
+def Series.getInt (s : Series) (k : Int) : Except Err (List Int) :=
+  match normKey s.axis.n k with
+  | .ok i => .ok (s.data.map fun row => row.getD i 0)
+  | .error e => .error e
+
+structure Events where
+  time : List Int
+  unit : TimeUnit
+  data : List (List Int)
+  deriving Repr, DecidableEq
+
+def Events.select (ev : Events) (pos : List Nat) : Events :=
+  { time := sel ev.time pos, unit := ev.unit, data := ev.data.map fun v => sel v pos }
+
+def Events.getInt (ev : Events) (k : Int) : Except Err Events :=
+  match normKey ev.time.length k with
+  | .ok i => .ok (ev.select [i])
+  | .error e => .error e
+
+/-- float key: `index_at(key)` with the default tolerance of one clock tick -/
+def Events.getFloat (ev : Events) (t : Int) : Events := ev.select (indexClosest ev.time t 1)
+
+def Events.getEpoch (ev : Events) (e : Epochs) : Except Err Events :=
+  if !e.scalar then .error .notImplemented
+  else
+    let (lo, hi) := sliceDuring ev.time (e.starts.headD 0) (e.stops.headD 0)
+    .ok (ev.select (slicePos lo hi))
+
+/-! ### line protocol -/
+open Proto
+
+def parseArg? (s : String) : Option Arg :=
+  if s = "_" then some none else (C01.parseOperand? s).map some
+
+/-- `U:<unit>:<t0>:<dt>:<n>:<dur>` -/
+def parseU? (s : String) : Option UAxis :=
+  match s.splitOn ":" with
+  | ["U", u, t0, dt, n, dur] => do
+    let u ← TimeUnit.ofString? u
+    let t0 ← t0.toInt?
+    let dt ← dt.toInt?
+    let n ← n.toNat?
+    let dur ← dur.toInt?
+    pure { t0 := t0, dt := dt, n := n, dur := dur, unit := u }
+  | _ => none
+
+def chunk (n : Nat) : Nat → List Int → List (List Int)
+  | 0, _ => []
+  | r + 1, xs => xs.take n :: chunk n r (xs.drop n)
+
+/-- `D:<rows>:<n>:<flat>` -/
+def parseD? (s : String) : Option (List (List Int)) :=
+  match s.splitOn ":" with
+  | ["D", r, n, flat] => do
+    let r ← r.toNat?
+    let n ← n.toNat?
+    let flat ← parseIntList? flat
+    if flat.length = r * n then pure (chunk n r flat) else none
+  | _ => none
+
+def showErr (e : Err) : String := "err " ++ e.name
+
+def showPos (lo hi : Nat) : String := "ok P:" ++ showNatList (slicePos lo hi)
+
+def showT (u : TimeUnit) (sc : Bool) (ps : List Int) : String :=
+  "ok " ++ C01.showT { ps := ps, unit := u, scalar := sc }
+
+def showBlocks (ne : String) (k : String) (blocks : List (List (List Int))) : String :=
+  s!"D:{ne}:{k}:{showIntList (blocks.flatMap fun b => b.flatMap id)}"
+
+def showEvents (ev : Events) : String :=
+  "ok EV:" ++ ev.unit.name ++ ":" ++ showIntList ev.time ++ (String.join (ev.data.map fun v => "|" ++ showIntList v))
+
+/-- a query read as `TimeArray(t, time_unit=unit)`: payload and 0-d flag -/
+def parseQuery? (unit : TimeUnit) (s : String) : Option (List Int × Bool) :=
+  (C01.parseOperand? s).map fun o => let t := toTime (some unit) o; (t.ps, t.scalar)
+
+def parseEpochs? (toks : List String) : Option (Except Err Epochs) :=
+  match toks with
+  | [u, t0, stop, offset, start, duration] => do
+    let u ← C01.parseUnitOpt? u
+    let t0 ← parseArg? t0
+    let stop ← parseArg? stop
+    let offset ← parseArg? offset
+    let start ← parseArg? start
+    let duration ← parseArg? duration
+    pure (Epochs.mk' u t0 stop offset start duration)
+  | _ => none
+
+/-- scalar epoch required (slice_during / during of the time containers) -/
+def withScalarEpoch (e : Except Err Epochs) (k : Int → Int → String) : String :=
+  match e with
+  | .error er => showErr er
+  | .ok e => if e.scalar then k (e.starts.headD 0) (e.stops.headD 0) else showErr .notImplemented
+
+def tarrayIndexAt (ts : List Int) (mode : String) (q : List Int) (tol : Int) : String :=
+  let showOpt : Option Nat → String
+    | some i => s!"ok i:{i}"
+    | none => "ok a:-"
+  match q with
+  | [t] => match mode with
+    | "closest" => "ok a:" ++ showNatList (indexClosest ts t tol)
+    | "before" => showOpt (indexBefore ts t)
+    | "after" => showOpt (indexAfter ts t)
+    | _ => showErr .valueError
+  | _ =>
+    if q.length ≠ ts.length then showErr .valueError else
+    match mode with
+    | "closest" => "ok a:" ++ showNatList (indexClosest2 ts q tol)
+    | "before" => showOpt (indexBefore2 ts q)
+    | "after" => showOpt (indexAfter2 ts q)
+    | _ => showErr .valueError
+
+/-- tolerance: `_` = one clock tick, else `TimeArray(tol, time_unit=unit)` (0-d or length 1) -/
+def parseTol? (unit : TimeUnit) (s : String) : Option Int :=
+  if s = "_" then some 1 else
+  match parseQuery? unit s with
+  | some ([v], _) => some v
+  | _ => none
+
+def uaxisAt (a : UAxis) (q : List Int) (sc : Bool) : String :=
+  match a.indexAt q with
+  | .ok idx => showT a.unit sc (sel a.times (idx.map Int.toNat))
+  | .error e => showErr e
+
+def uaxisDuring (a : UAxis) (e : Except Err Epochs) : String :=
+  withScalarEpoch e fun s t => let (lo, hi) := a.sliceDuring s t; showT a.unit false (sel a.times (slicePos lo hi))
+
+def tarrayDuring (u : TimeUnit) (ts : List Int) (e : Except Err Epochs) : String :=
+  withScalarEpoch e fun s t => let (lo, hi) := sliceDuring ts s t; showT u false (sel ts (slicePos lo hi))
+
+def seriesAt (s : Series) (q : List Int) (sc : Bool) : String :=
+  match s.at q with
+  | .ok rows => "ok " ++ showBlocks "s" (if sc then "s" else toString q.length) [rows]
+  | .error e => showErr e
+
+def seriesDuring (s : Series) (e : Except Err Epochs) : String :=
+  match e with
+  | .error er => showErr er
+  | .ok e => match s.during e with
+    | .error er => showErr er
+    | .ok r =>
+      let k := ((r.blocks.headD []).headD []).length
+      s!"ok TS:{r.unit.name}:{r.t0}:" ++ showBlocks (if e.scalar then "s" else toString r.blocks.length) (toString k) r.blocks
+
+def handle (args : List String) : String :=
+  match args with
+  | ["index_at", "uaxis", a, q] => match parseU? a with
+    | some a => match parseQuery? a.unit q with
+      | some (q, sc) => match a.indexAt q with
+        | .ok idx => if sc then s!"ok i:{idx.headD 0}" else "ok a:" ++ showIntList idx
+        | .error e => showErr e
+      | none => "bad-op"
+    | none => "bad-op"
+  | ["index_at_cur", "uaxis", a, q] => match parseU? a with
+    | some a => match parseQuery? a.unit q with
+      | some (q, sc) => match a.indexAtCurrent q with
+        | .ok idx => if sc then s!"ok i:{idx.headD 0}" else "ok a:" ++ showIntList idx
+        | .error e => showErr e
+      | none => "bad-op"
+    | none => "bad-op"
+  | ["index_at", "tarray", t, mode, q, tol] => match C01.parseT? t with
+    | some t => match parseQuery? t.unit q, parseTol? t.unit tol with
+      | some (q, _), some tol => tarrayIndexAt t.ps mode q tol
+      | _, _ => "bad-op"
+    | none => "bad-op"
+  | "slice_during" :: "uaxis" :: a :: ep => match parseU? a, parseEpochs? ep with
+    | some a, some e => withScalarEpoch e fun s t => let (lo, hi) := a.sliceDuring s t; showPos lo hi
+    | _, _ => "bad-op"
+  | "slice_during_cur" :: "uaxis" :: a :: ep => match parseU? a, parseEpochs? ep with
+    | some a, some e => withScalarEpoch e fun s t => match a.sliceDuringCurrent s t with
+      | .ok (lo, hi) => showPos lo hi
+      | .error er => showErr er
+    | _, _ => "bad-op"
+  | "slice_during" :: "tarray" :: t :: ep => match C01.parseT? t, parseEpochs? ep with
+    | some t, some e => withScalarEpoch e fun s p => let (lo, hi) := sliceDuring t.ps s p; showPos lo hi
+    | _, _ => "bad-op"
+  | "slice_during_cur" :: "tarray" :: t :: ep => match C01.parseT? t, parseEpochs? ep with
+    | some t, some e => withScalarEpoch e fun s p => let (lo, hi) := sliceDuringCurrent t.ps s p; showPos lo hi
+    | _, _ => "bad-op"
+  | ["at", "uaxis", a, q] => match parseU? a with
+    | some a => match parseQuery? a.unit q with
+      | some (q, sc) => uaxisAt a q sc
+      | none => "bad-op"
+    | none => "bad-op"
+  | ["at", "tarray", t, q, tol] => match C01.parseT? t with
+    | some t => match parseQuery? t.unit q, parseTol? t.unit tol with
+      | some ([q], _), some tol => showT t.unit false (sel t.ps (indexClosest t.ps q tol))
+      | some (q, _), some tol =>
+        if q.length ≠ t.ps.length then showErr .valueError
+        else showT t.unit false (sel t.ps (indexClosest2 t.ps q tol))
+      | _, _ => "bad-op"
+    | none => "bad-op"
+  | ["at", "series", a, d, q] => match parseU? a, parseD? d with
+    | some a, some d => match parseQuery? a.unit q with
+      | some (q, sc) => seriesAt { axis := a, data := d } q sc
+      | none => "bad-op"
+    | _, _ => "bad-op"
+  | "during" :: "uaxis" :: a :: ep => match parseU? a, parseEpochs? ep with
+    | some a, some e => uaxisDuring a e
+    | _, _ => "bad-op"
+  | "during" :: "tarray" :: t :: ep => match C01.parseT? t, parseEpochs? ep with
+    | some t, some e => tarrayDuring t.unit t.ps e
+    | _, _ => "bad-op"
+  | "during" :: "series" :: a :: d :: ep => match parseU? a, parseD? d, parseEpochs? ep with
+    | some a, some d, some e => seriesDuring { axis := a, data := d } e
+    | _, _, _ => "bad-op"
+  | "epochs" :: ep => match parseEpochs? ep with
+    | some (.ok e) => s!"ok E:{e.unit.name}:{if e.scalar then "1" else "0"}:{showIntList e.starts}:{showIntList e.stops}:{e.offset}"
+    | some (.error er) => showErr er
+    | none => "bad-op"
+  -- __getitem__
+  | ["getitem", "uaxis", a, "int", k] => match parseU? a, k.toInt? with
+    | some a, some k => match normKey a.n k with
+      | .ok i => showT a.unit true [a.sample i]
+      | .error e => showErr e
+    | _, _ => "bad-op"
+  | ["getitem", "uaxis", a, "q", q] => match parseU? a with
+    | some a => match parseQuery? a.unit q with
+      | some (q, sc) => uaxisAt a q sc
+      | none => "bad-op"
+    | none => "bad-op"
+  | "getitem" :: "uaxis" :: a :: "ep" :: ep => match parseU? a, parseEpochs? ep with
+    | some a, some e => uaxisDuring a e
+    | _, _ => "bad-op"
+  | ["getitem", "tarray", t, "int", k] => match C01.parseT? t, k.toInt? with
+    | some t, some k => match normKey t.ps.length k with
+      | .ok i => showT t.unit true [t.ps.getD i 0]
+      | .error e => showErr e
+    | _, _ => "bad-op"
+  | ["getitem", "tarray", t, "q", q] => match C01.parseT? t with
+    | some t => match parseQuery? t.unit q with
+      | some ([q], _) => showT t.unit false (sel t.ps (indexClosest t.ps q 1))
+      | _ => "bad-op"
+    | none => "bad-op"
+  | "getitem" :: "tarray" :: t :: "ep" :: ep => match C01.parseT? t, parseEpochs? ep with
+    | some t, some e => tarrayDuring t.unit t.ps e
+    | _, _ => "bad-op"
+  | ["getitem", "series", a, d, "int", k] => match parseU? a, parseD? d, k.toInt? with
+    | some a, some d, some k => match Series.getInt { axis := a, data := d } k with
+      | .ok col => "ok " ++ showBlocks "s" "s" [[col]]
+      | .error e => showErr e
+    | _, _, _ => "bad-op"
+  | ["getitem", "series", a, d, "q", q] => match parseU? a, parseD? d with
+    | some a, some d => match parseQuery? a.unit q with
+      | some (q, sc) => seriesAt { axis := a, data := d } q sc
+      | none => "bad-op"
+    | _, _ => "bad-op"
+  | "getitem" :: "series" :: a :: d :: "ep" :: ep => match parseU? a, parseD? d, parseEpochs? ep with
+    | some a, some d, some e => seriesDuring { axis := a, data := d } e
+    | _, _, _ => "bad-op"
+  | ["getitem", "events", t, d, "int", k] => match C01.parseT? t, parseD? d, k.toInt? with
+    | some t, some d, some k => match Events.getInt { time := t.ps, unit := t.unit, data := d } k with
+      | .ok ev => showEvents ev
+      | .error e => showErr e
+    | _, _, _ => "bad-op"
+  | ["getitem", "events", t, d, "q", q] => match C01.parseT? t, parseD? d with
+    | some t, some d => match parseQuery? t.unit q with
+      | some ([q], _) => showEvents (Events.getFloat { time := t.ps, unit := t.unit, data := d } q)
+      | _ => "bad-op"
+    | _, _ => "bad-op"
+  | "getitem" :: "events" :: t :: d :: "ep" :: ep => match C01.parseT? t, parseD? d, parseEpochs? ep with
+    | some t, some d, some (.ok e) => match Events.getEpoch { time := t.ps, unit := t.unit, data := d } e with
+      | .ok ev => showEvents ev
+      | .error er => showErr er
+    | some _, some _, some (.error er) => showErr er
+    | _, _, _ => "bad-op"
+  | _ => "bad-op"
 
 end Nitime.C03
